@@ -470,7 +470,7 @@ func (gen *generator) irFuncDef(new *ir.Func, old *ast.FuncDef) error {
 	// Basic blocks.
 	fgen := newFuncGen(gen, new)
 	oldBody := old.Body()
-	if err := fgen.resolveLocals(oldBody); err != nil {
+	if err := fgen.resolveLocals(old.Header().Params().Params(), oldBody); err != nil {
 		return errors.WithStack(err)
 	}
 	// (optional) Use list orders.
